@@ -96,6 +96,11 @@ KINDS = {
     'header_dict_except': ('select * except a["name"]', {'header': True}),
     'direct_vars': ('select key, sort_key where out_fields != key', {'header_names': ['key', 'sort_key', 'out_fields'], 'normalize': False}),
     'direct_vars_nr': ('select NR, name where stop_flag == name or True', {'header_names': ['stop_flag', 'name', 'record_a'], 'normalize': False}),
+    'with_noheader': ('select NR, a1, a2 with (noheader)', {'header': True, 'csv_only': True}),
+    'with_noheaders': ('select NR, a1 with (noheaders)', {'header': True, 'csv_only': True}),
+    'with_header': ('select a.name, NR with (header)', {'force_header_row': True, 'csv_only': True}),
+    'with_headers': ('select a.name, a.id with (headers)', {'force_header_row': True, 'csv_only': True}),
+    'with_header_table': ('select a1, NR with (header)', {}),
     'join_two_keys': ('select a1, b2 left join B on a2 == b1 and a1 == b3', {'join': True, 'join_b3_from_a1': True}),
     'err_join_table_missing': ('select a1, b2 join B on a2 == b1', {'join_missing': True}),
 }
@@ -142,6 +147,12 @@ def gen_op(rng, kind=None, api=None, max_rows=6, pool=40):
             op['header'] = [{'name': 'title', 'id': 'ident'}.get(h, h) if rng.random() < 0.6 else h for h in op['header']]
     if opt.get('init'):
         op['init'] = opt['init']
+    if opt.get('csv_only'):
+        op['api'] = api if api in ('csv', 'cli', 'csviter') else rng.choice(['csv', 'cli', 'csviter'])
+    if opt.get('force_header_row') and rows:
+        # the data has a header line but the front-end is told it has none: only the WITH modifier makes it one
+        op['rows'] = [['id', 'name', 'tag']] + rows
+        op.pop('header', None)
     if opt.get('header_names'):
         op['header'] = list(opt['header_names'])
         op['normalize'] = False
@@ -572,9 +583,15 @@ def generate(rng, tier, idx):
         if rng.random() < 0.35:
             # the same query text again over another table / column order / front-end: what a cache keyed by
             # (part of) the query text would confuse
-            kind = rng.choice(KIND_NAMES if rng.random() < 0.5 else ['header_attr', 'except_header', 'join_header', 'header_dict', 'header_dict_update', 'header_dict_except', 'agg_float', 'agg_plain', 'like', 'join', 'init_code'])
+            kind = rng.choice(KIND_NAMES if rng.random() < 0.5 else ['header_attr', 'except_header', 'join_header', 'header_dict', 'header_dict_update', 'header_dict_except', 'agg_float', 'agg_plain', 'like', 'join', 'init_code', 'with_noheader', 'with_noheaders', 'with_header', 'with_headers'])
             for _ in range(rng.choice([2, 2, 3])):
                 ops.insert(rng.randrange(len(ops) + 1), gen_op(rng, kind, pool=pool))
+        if rng.random() < 0.12:
+            # several queries with a WITH (...) modifier in one interpreter
+            api = rng.choice(['csv', 'cli', 'csviter'])
+            for k in rng.sample(['with_noheader', 'with_noheaders', 'with_header', 'with_headers', 'with_header_table', 'with_noheader'], rng.choice([2, 3])):
+                ops.insert(rng.randrange(len(ops) + 1), gen_op(rng, k, api=api, pool=pool))
+            ops = ops[:8]
         if rng.random() < 0.12:
             # a JOIN on a table that is not there, followed later by the same JOIN when it is: what a cached lookup would get wrong
             api = rng.choice(['csv', 'cli', 'csv', 'table'])
@@ -658,7 +675,10 @@ def execute(sc):
         res['key'] = core.key64(sc['ops'])
         if obs['bad'] is not None:
             b = obs['bad']
-            case = {'part': 'B', 'ops': sc['ops'], 'picks': b['picks']}
+            # schedules of one enumeration run one after another in the same interpreter, so a failing schedule may owe its
+            # failure to the ones before it: the replayable case is the enumeration up to and including that schedule
+            case = dict(sc)
+            case['max_schedules'] = obs['explored']
             res.update(verdict='violation', oracle='interleaving', case=case,
                        detail={'thread': b['thread'], 'kind': sc['ops'][b['thread']]['kind'], 'others': [o['kind'] for j, o in enumerate(sc['ops']) if j != b['thread']],
                                'interleaved': b['outcome'], 'alone': refs[b['thread']], 'schedule': b['schedule'][:200], 'found_by': 'enumeration'})
